@@ -123,7 +123,8 @@ def run(ctx):
                 if okg:
                     u = num[2][0]
                     okg = u[0] == "op" and u[1] == "Sub" and u[2][0] == const(1.0) and u[2][1][0] == "call" and u[2][1][1].endswith("gen_range") \
-                        and range_start(u[2][1][2][1]) == const(0.0) and range_end(u[2][1][2][1]) == const(1.0)
+                        and range_start(u[2][1][2][1]) == const(0.0) and range_end(u[2][1][2][1]) == const(1.0) \
+                        and u[2][1][2][1][0] == "adt" and u[2][1][2][1][1] == "std::ops::Range"   # half-open [0,1): u in (0,1], ln(u) finite
             if not okg:
                 probs_gap.append("gap draw is %s, expected floor(ln(1 - U[0,1)) / ln(1 - k/(i+1))) as usize" % fmt(g)[:200])
     for p in cls["gap-skip"]:
@@ -142,6 +143,8 @@ def run(ctx):
         rest = [x for x in probs_gap if not x.startswith("skip_until :=")]
         if rest or not off:
             ctx.fail("R05-gap-term", add.key + ":gap-draw", gap_span[0] if gap_span else add, "; ".join(sorted(set(rest))[:2]) or "no skip_until store found on the accepting gap path")
+
+    reuse_after_clear(ctx)
 
     # ---- R05-gap-init ------------------------------------------------------------------------------------
     # The gap guard reads skip_until. If every non-constant store to skip_until is dominated by that guard's true edge,
@@ -168,6 +171,12 @@ def run(ctx):
               "a drawn gap can reach the first evaluation of the gap guard (a store to skip_until outside the guarded region)",
               "every drawn store to skip_until lies behind the guard `i >= skip_until` itself, so the first gap-phase call reads the constant from new()/clear(): "
               "the item at the phase switch (stream index 4k) is accepted with probability 1 instead of k/(4k+1)")
+
+
+def reuse_after_clear(ctx):
+    """a sampler that keeps phase state across clear() samples the next stream non-uniformly"""
+    from .C19 import run_clear_rules
+    run_clear_rules(ctx, only_adt=RS, floor=1)
 
 
 def range_start(r):
